@@ -223,6 +223,34 @@ PROPS['C26'] = dict(
                 'so a proof holds for every key and every map by generalisation.',
 )
 
+PROPS['C19'] = dict(
+    units=['k_seq'], level='proof', design_ref='6/C19',
+    technique='CBMC harness contract on Session::enforce with Session::sequence_check, compid_check, do_state_change, States::is_established/is_live and SessionID::same_*_comp_id all '
+              'translated from their real bodies (clang AST of runtime/session.cpp); the inbound message header, send/generate_resend_request and the session configuration are assumed models',
+    text='The library-side gate (proved-modular, for every session state, expected number, received number, header content and configuration): enforce lets a message through to the application '
+         '(returns false without throwing) exactly when the session is established, the CompIDs match the session identity when enforcement is on, and the number is the expected one or lower '
+         'with PossDupFlag=Y and OrigSendingTime not after SendingTime; a higher number in normal operation is withheld, a ResendRequest starting at the expected number is sent (exactly one) and '
+         'the state becomes resend_request_sent; a lower number without PossDup raises MsgSequenceTooLow; the gate never moves the expected number and raises only protocol exceptions. '
+         'ASSUMED: every handle_application is `enforce(seqnum, msg) || msg->process(router)` (as all in-tree ones are). NOT decided: Session::process (how MsgSeqNum is extracted from the raw '
+         'text -- first "34=" occurrence -- the dispatch, the epilogue that advances the expected number, reject-on-decode-failure), handle_sequence_reset, the history lemma.',
+    note='only the gate function is under contract; Session::process and the admin handlers are not; message header accessors and send() are ASSUMED models; delivery itself happens in user code',
+    trusted_base=COMMON_TRUST,
+    explanation='The inbound message is a ghost record of the header facts the gate reads; all session state it touches is symbolic, so the postconditions hold for every reachable and unreachable state alike.',
+)
+
+PROPS['C20'] = dict(
+    units=['k_seq'], level='proof', design_ref='6/C20',
+    technique='same unit as C19 (Session::enforce / sequence_check from the clang AST): obligations about a number above the expected one',
+    text='A number above the expected one in normal operation is withheld and answered with a ResendRequest, not treated as fatal (proved). REFUTED on the pinned tree and listed as known findings, '
+         'each reproduced through the real Session::process with the utests mock connection: a further higher-numbered message while the resend is pending (conformant: the counterparty keeps '
+         'sending) raises InvalidMsgSequence, which forces a logoff; a Logon whose number is above the expected one does the same (unless the ignore_logon_sequence_check flag is set). '
+         'NOT decided: the rest of gap recovery -- handle_resend_request / retrans_callback on the sending side (C18), handle_sequence_reset (GapFill adoption), the expected number being advanced '
+         'by the epilogue of Session::process after a withheld message, and the whole exchange as a history.',
+    note='only the sequence_check decision is covered; the conformant-counterparty history lemma is not built',
+    trusted_base=COMMON_TRUST,
+    explanation='See C19.',
+)
+
 # ---------------------------------------------------------------- native replayers
 import os
 from vlib import replay as _rp
@@ -368,6 +396,22 @@ def _replay_k_mper(oid, inputs, trace, wd):
                 reproduced=p.returncode == 1)
 
 
+def _replay_k_seq(oid, inputs, trace, wd):
+    R = _rp.astdump.REPO
+    # the real Session::process / enforce / sequence_check (session.cpp compiled from the working tree with the utests' mock connection); generated classes and the rest of the runtime from
+    # the repository's built libraries; no sanitizer (session.cpp's statics exist twice, in the program and in libfix8)
+    exe = _rp.build_native(os.path.join(_rp.VERIF, 'replay', 'k_seq.cpp'), os.path.join(wd, 'replay_k_seq'), sanitize=False, timeout=900,
+                           extra=['/repo/utests/mockConnection.cpp', '-I/repo/utests', '-L/repo/utests/.libs', '-lutest', '-L/repo/runtime/.libs', '-lfix8',
+                                  '-Wl,-rpath,/repo/utests/.libs', '-Wl,-rpath,/repo/runtime/.libs'])
+    which = 'second_gap' if 'resend_pending' in oid else 'logon_gap' if 'logon_with_a_higher' in oid else 'gate'
+    os.makedirs(os.path.join(wd, 'seqscratch'), exist_ok=True)
+    import subprocess
+    p = subprocess.run([exe, 'search', which], cwd=os.path.join(wd, 'seqscratch'), stdout=subprocess.PIPE, stderr=subprocess.STDOUT, text=True, timeout=300)
+    return dict(steps=[dict(kind='native session history (%s) through the real Session::process with the utests mock connection' % which, rc=p.returncode, output=p.stdout[-1500:])],
+                reproduced=p.returncode == 1)
+
+
+replayers['k_seq'] = _replay_k_seq
 replayers['k_mper'] = _replay_k_mper
 replayers['k_enc'] = _replay_k_enc
 replayers['k_sched'] = _replay_k_sched
